@@ -37,7 +37,8 @@ ASSUMPTIONS = [
     "the calc_data_id callback used here is total (objects without a guid fall back to hash), as a lookup key may be any object",
 ]
 
-LABELS = ["a", "b", "c", "a1", "b1", "ab", "A", "B1", 3, 7]
+# (-1 and 2**61 + 5 are ints whose hash - their data_id - differs from the value: hash(-1) == -2, hash(2**61 + 5) == 6)
+LABELS = ["a", "b", "c", "a1", "b1", "ab", "A", "B1", 3, 7, -1, 2**61 + 5]
 PATTERNS = [
     "A!", "A.*!", "[AB]1?!", ".*!",  # only match the names of the custom node class
     "a", "b1", "zz", "a.*", ".*1", "[ab].*", "a|b1", "(a|b).?", ".*", "[A-Z].*", "\\d", ".", "a1?",
